@@ -148,6 +148,7 @@ func init() {
 		"path/filepath.IsAbs":          filepath.IsAbs,
 		"path/filepath.Join":           filepath.Join,
 		"path/filepath.Rel":            filepath.Rel,
+		"path/filepath.Abs":            filepath.Abs,
 	}
 	for k, f := range auto {
 		if _, ok := natives[k]; !ok {
